@@ -146,7 +146,14 @@ func c15PerformJoin(args [][]byte) ([][]byte, []byte) {
 		k := "x"
 		createKey = &k
 	}
-	create := room.add(gmsl.ProtoEvent{SenderID: creator, Type: spec.MRoomCreate, StateKey: createKey, Content: c15JSON(createContent)})
+	createRaw := c15JSON(createContent)
+	switch s.Auth {
+	case "create_dup_version_known_last":
+		createRaw = []byte(`{"creator":"` + creator + `","room_version":"9999","room_version":"` + s.RoomVer + `"}`)
+	case "create_dup_version_unknown_last":
+		createRaw = []byte(`{"creator":"` + creator + `","room_version":"` + s.RoomVer + `","room_version":"9999"}`)
+	}
+	create := room.add(gmsl.ProtoEvent{SenderID: creator, Type: spec.MRoomCreate, StateKey: createKey, Content: createRaw})
 	cmember := room.add(gmsl.ProtoEvent{SenderID: creator, Type: spec.MRoomMember, StateKey: &creator, Content: spec.RawJSON(`{"membership":"join"}`)}, create)
 	pl := room.add(gmsl.ProtoEvent{SenderID: creator, Type: spec.MRoomPowerLevels, StateKey: &empty,
 		Content: c15JSON(c15Obj{"users": c15Obj{creator: 100}, "users_default": 0, "invite": 0, "state_default": 50, "events_default": 0})}, create, cmember)
@@ -260,6 +267,11 @@ func c15PerformJoin(args [][]byte) ([][]byte, []byte) {
 	switch s.Remote {
 	case "good":
 		mkRemote(func(p *gmsl.ProtoEvent) {})
+	case "dup_membership_join_last":
+		// repeated member: the stored reading (last occurrence) says join
+		mkRemote(func(p *gmsl.ProtoEvent) { p.Content = spec.RawJSON(`{"membership":"leave","membership":"join"}`) })
+	case "dup_membership_leave_last":
+		mkRemote(func(p *gmsl.ProtoEvent) { p.Content = spec.RawJSON(`{"membership":"join","membership":"leave"}`) })
 	case "unauthorised_join":
 		// a well-formed join of the user in the room that its own auth events do not allow
 		mkRemote(func(p *gmsl.ProtoEvent) { p.AuthEvents = []string{} })
@@ -451,6 +463,10 @@ func genC15Perform(c *Ctx) {
 		{"template prev_events [\"\"]", func(s *c15PJScen) { s.Template = "prev_empty_string" }},
 		{"template auth_events [[], ref]", func(s *c15PJScen) { s.Template = "auth_empty_pair" }},
 		{"template prev_events mixed", func(s *c15PJScen) { s.Template = "prev_mixed" }},
+		{"remote event membership twice, join last", func(s *c15PJScen) { s.Remote = "dup_membership_join_last" }},
+		{"remote event membership twice, leave last", func(s *c15PJScen) { s.Remote = "dup_membership_leave_last" }},
+		{"create room_version twice, known last", func(s *c15PJScen) { s.Auth = "create_dup_version_known_last" }},
+		{"create room_version twice, unknown last", func(s *c15PJScen) { s.Auth = "create_dup_version_unknown_last" }},
 		{"remote event a join its auth events do not allow", func(s *c15PJScen) { s.Remote = "unauthorised_join" }},
 		{"remote event a join without rules in its auth events", func(s *c15PJScen) { s.Remote = "join_by_banned_state" }},
 		{"no remote event", func(s *c15PJScen) { s.Remote = "none" }},
